@@ -102,6 +102,7 @@ instance : MapI MapEnv where
   RelativeAccuracy e := e.relAcc
   MinIndexableValue e := e.minIndexable
   MaxIndexableValue e := e.maxIndexable
+  Encode e b := b ++ (Wire.encBlock e.id.toBlock).map (BitVec.ofNat 8)
 
 @[simp] theorem map_equals (a b : MapEnv) : MapI.Equals a b = a.id.equals b.id := rfl
 @[simp] theorem map_index (e : MapEnv) (v : F64) : MapI.Index e v = e.index v := rfl
@@ -142,6 +143,17 @@ def storeReweight (st : Store) (w : F64) : Store × GoErr :=
       | _ => (st, GoErr.nil)
     | _ => (st, GoErr.nil)
 
+/-- the side a store flag type stands for -/
+def flagSide (t : Gen.Encoding.FlagType) : Side :=
+  if t == Gen.Encoding.FlagTypePositiveStore then .pos else .neg
+
+/-- `Store.Encode` through the model's `Sketch.encodeStore` (blocks) and `Wire.encBlocks` (bytes); a panicking
+    model operation leaves store and buffer unchanged (nothing is claimed there) -/
+def storeEncode (st : Store) (b : List (BitVec 8)) (t : Gen.Encoding.FlagType) : Store × List (BitVec 8) :=
+  match Sketch.encodeStore st (flagSide t) with
+  | some (st', blocks) => (st', b ++ (Wire.encBlocks blocks).map (BitVec.ofNat 8))
+  | none => (st, b)
+
 instance : StoreI Store where
   Add st i := (st.addWithCount i 1).getD st
   AddWithCount := storeAddF
@@ -154,6 +166,7 @@ instance : StoreI Store where
   KeyAtRank := Sketch.storeKeyAtRank
   MergeWith st o := (st.mergeWith o).getD st
   Reweight := storeReweight
+  Encode := storeEncode
 
 @[simp] theorem store_add (st : Store) (i : Int) : StoreI.Add st i = (st.addWithCount i 1).getD st := rfl
 @[simp] theorem store_addWithCount (st : Store) (i : Int) (c : F64) :
